@@ -580,7 +580,7 @@ def main():
     ap.add_argument("--jobs", type=int, default=int(os.environ.get("VERIF_JOBS", "6")))
     a = ap.parse_args()
     pid = a.pid
-    tier = a.tier if a.tier in ("quick", "thorough") else "quick"
+    tier = "thorough" if a.tier in ("thorough", "attempt") else "quick"
     seed = int(os.environ.get("VERIF_SEED", "0") or 0)
 
     if a.replay:
@@ -603,7 +603,12 @@ def main():
     try:
         unit = load_unit(pid)
         os.makedirs(logdir, exist_ok=True)
-        hs = [h for h in unit.get("harnesses", []) if tier == "thorough" or h.get("tier", "quick") == "quick"]
+        # tiers: quick (every change), thorough (adds the obligations measured to need more time or
+        # memory), unreached (written, attempted, never completed within 28-44 GB / an hour: run only
+        # with --tier attempt, listed in the evidence as not decided)
+        attempt = a.tier == "attempt"
+        hs = [h for h in unit.get("harnesses", [])
+              if h.get("tier", "quick") == "quick" or (tier == "thorough" and (attempt or h.get("tier") == "thorough"))]
         if a.only:
             hs = [h for h in hs if re.search(a.only, h["name"])]
         for h in hs:
@@ -804,6 +809,8 @@ def write_evidence(pid, tier, seed, unit, results, vresults, status, splice_chan
         "splice_changes": splice_changes,
         "known_findings_seen": [f["what"] for f in known_seen],
         "not_decided": unit.get("not_decided", []),
+        "obligations_written_but_unreached": [{"obligation": h["name"], "clause": h.get("clause", ""), "bound": h.get("bound")}
+                                              for h in unit.get("harnesses", []) if h.get("tier") == "unreached"],
         "samples": samples,
         "solver_time_s": round(sum((r["solver_s"] or 0) for _, r in results) + sum((r.get("solver_s") or 0) for _, r in vresults), 1),
         "status": {0: "all obligations discharged", 1: "violation", 2: "undecided: " + status["reason"]}[status["code"]],
